@@ -148,6 +148,10 @@ class CompressedSerde:
     def serialize(self, key, value):
         value, flags = self._serde.serialize(key, value)
 
+        if isinstance(value, str):
+            # e.g. integers are serialized as ASCII text; compressors need bytes
+            value = value.encode("ascii")
+
         if len(value) > self._min_compress_len > 0:
             old_value = value
             value = self._compress(value)
